@@ -4,15 +4,29 @@
 // Oracle (metamorphic, before vs after): a generated v1/v1beta1 workspace W and a fixed mutated copy M
 // (same configuration files, sources with extra/changed elements) are written to disk. Through the same
 // controller entry point the CLI uses for `buf build|lint|breaking <input>`
-// (bufctl.Controller.GetTargetImageWithConfigsAndCheckClient + Client.Lint / Client.Breaking, images
-// paired by index like `buf breaking` does) the per-module images, lint annotations and breaking
-// annotations against M are observed for the workspace directory and for every module directory.
-// Then W is migrated in place with bufmigrate.MigrateAll on an OS bucket rooted at W (what
-// `buf config migrate` does in its working directory) and the same observations are taken again.
-// M is never migrated. Because migration is in place, every path is identical on both sides; no
-// normalisation is needed. Modules are addressed by directory (non-import files of an image lie in
-// exactly one generated module directory); the N root-modules a v1beta1 module with N roots is split
-// into are compared as a union.
+// (bufctl.Controller.GetTargetImageWithConfigsAndCheckClient, then bufcheck Client.Lint / Client.Breaking
+// with the options lint.go / breaking.go pass, images paired by index like `buf breaking` does) the
+// per-module images, lint annotations and breaking annotations against M are observed for the workspace
+// directory and for one module directory. Then W is migrated in place with bufmigrate.MigrateAll on an
+// OS bucket rooted at W (what `buf config migrate` without flags does in its working directory) and the
+// same observations are taken again. M is never migrated. Because migration is in place every path is
+// identical on both sides; nothing is normalised. Modules are addressed by directory (the non-import
+// files of an image lie in exactly one generated module directory); the N modules a v1beta1 module with
+// N roots is split into are compared as a union.
+//
+// Compared: per module the set of image files with their import flag, every FileDescriptorProto
+// (proto.Equal, source info included), the set of lint annotations {type, path, external path, start/end
+// line/column, message}; per input and module the set of breaking annotations against M.
+//
+// Not asserted (and why): the text of the migrated buf.yaml (the statement is about behaviour); module
+// names (a named multi-root v1beta1 module becomes unnamed modules, documented by the migrator);
+// breaking results of inputs that contain a multi-root v1beta1 module (the un-migrated copy then has a
+// different number of modules and `buf breaking` refuses the pair - a documented consequence of the
+// split); module-wide lint rules that span the roots of one v1beta1 module (the generator does not share
+// a type or a directory across roots of one module); buf.lock / remote deps (none are generated).
+//
+// One bufcheck client is shared by all observations of a process (rule tables are static without
+// plugins); a fresh client per call re-validates the whole rule list and would triple the cost.
 package c16
 
 import (
@@ -104,7 +118,7 @@ type migCase struct {
 	Kind    string            `json:"kind"`   // "migration"
 	Layout  string            `json:"layout"` // work | root | subdir
 	Modules []migCaseMod      `json:"modules"`
-	Inputs  []string          `json:"inputs"` // directories given to build/lint/breaking (workspace-relative)
+	Inputs  []string          `json:"inputs"`  // directories given to build/lint/breaking (workspace-relative)
 	Files   map[string]string `json:"files"`   // workspace tree before migration
 	Against map[string]string `json:"against"` // fixed mutated copy (never migrated)
 }
@@ -437,13 +451,13 @@ func migAnnSet(as []migAnn) []string {
 }
 
 type migObs struct {
-	Err    string // images could not be produced
-	images []bufctl.ImageWithConfig
-	client bufcheck.Client
-	modOf  []string                                                 // image index -> module dir
-	files  map[string]map[string]bool                               // module dir -> path -> is import in every image of that module
-	descs  map[string]map[string][]*descriptorpb.FileDescriptorProto // module dir -> path -> descriptors seen
-	lint   map[string][]string                                      // module dir -> annotation set
+	Err     string // images could not be produced
+	images  []bufctl.ImageWithConfig
+	client  bufcheck.Client
+	modOf   []string                                                  // image index -> module dir
+	files   map[string]map[string]bool                                // module dir -> path -> is import in every image of that module
+	descs   map[string]map[string][]*descriptorpb.FileDescriptorProto // module dir -> path -> descriptors seen
+	lint    map[string][]string                                       // module dir -> annotation set
 	lintErr string
 }
 
@@ -882,8 +896,7 @@ func migClasses(r *evid.Recorder, ws *migWS, st *migStats) {
 				if tb.isDepr[id] || id == "DEFAULT" || id == "STYLE_DEFAULT" {
 					depr = true
 				}
-				switch id {
-				case "FILE_LAYOUT", "PACKAGE_AFFINITY", "SENSIBLE", "OTHER", "STYLE_BASIC", "STYLE_DEFAULT", "STYLE_STANDARD", "FIELD_NO_DESCRIPTOR":
+				if !migTables["v2"][kind].has(id) {
 					tbV2Missing = true
 				}
 			}
@@ -891,7 +904,7 @@ func migClasses(r *evid.Recorder, ws *migWS, st *migStats) {
 				r.Class("mig-" + kind + "-deprecated-id")
 			}
 			if tbV2Missing {
-				r.Class("mig-lint-id-absent-in-v2")
+				r.Class("mig-" + kind + "-id-absent-in-v2")
 			}
 		}
 		if m.Lint.AllowCommentIgnores {
@@ -951,7 +964,7 @@ func TestMigration(t *testing.T) {
 	if err != nil {
 		t.Fatalf("harness: %v", err)
 	}
-	r.Check(t, r.Scale(60, 3000), 7, func(t *rapid.T) {
+	r.Check(t, r.Scale(200, 5000), 7, func(t *rapid.T) {
 		ws := migGenWS(t)
 		c := migCaseOf(ws)
 		st := &migStats{}
